@@ -145,6 +145,85 @@ Definition common_ancestors_pos (g : graph) (s1 s2 : list nat) : option (list na
 Definition all_heads_pos (g : graph) : list nat :=
   filter (fun i => negb (existsb (memn i) g)) (seq 0 (length g)).
 
+(** ** the segment stack (composite.rs:133-185, mutable.rs:129-164, :318-345)
+    A composite index is a stack of segments, newest first; a segment lists its local
+    entries (commit id, global parent positions) in local-position order; the global position
+    of a local entry is its local position plus the number of commits in the older segments. *)
+Definition sentry := (N * list nat)%type.           (* commit id (abstract), parent positions *)
+Definition segment := list sentry.
+Definition stack := list segment.                  (* ancestor_index_segments: self first *)
+
+Definition num_commits (st : stack) : nat := list_sum (map (@length sentry) st).
+(** composite.rs:161 entry_by_pos: first segment with pos >= num_parent_commits *)
+Fixpoint entry_by_pos (st : stack) (pos : nat) : option sentry :=
+  match st with
+  | [] => None
+  | seg :: rest =>
+    let np := num_commits rest in
+    if (np <=? pos)%nat then nth_error seg (pos - np) else entry_by_pos rest pos
+  end.
+Fixpoint find_local (id : N) (seg : segment) (i : nat) : option nat :=
+  match seg with
+  | [] => None
+  | e :: r => if (fst e =? id)%N then Some i else find_local id r (S i)
+  end.
+(** composite.rs:179 commit_id_to_pos: first segment (newest first) that knows the id *)
+Fixpoint commit_id_to_pos (st : stack) (id : N) : option nat :=
+  match st with
+  | [] => None
+  | seg :: rest =>
+    match find_local id seg 0 with
+    | Some l => Some (l + num_commits rest)%nat
+    | None => commit_id_to_pos rest id
+    end
+  end.
+Fixpoint all_some {A} (l : list (option A)) : option (list A) :=
+  match l with
+  | [] => Some []
+  | Some x :: r => match all_some r with Some xs => Some (x :: xs) | None => None end
+  | None :: _ => None
+  end.
+(** mutable.rs:129 add_commit_data on the top (mutable) segment; [None] = a parent is not
+    indexed (the [expect] panics) *)
+Definition add_commit_data (st : stack) (id : N) (parent_ids : list N) : option stack :=
+  match commit_id_to_pos st id with
+  | Some _ => Some st
+  | None =>
+    match all_some (map (commit_id_to_pos st) parent_ids) with
+    | None => None
+    | Some ps =>
+      match st with
+      | [] => Some [[(id, ps)]]
+      | top :: rest => Some ((top ++ [(id, ps)]) :: rest)
+      end
+    end
+  end.
+(** the flat index the queries see: all entries, oldest first *)
+Definition flat (st : stack) : list sentry := concat (rev st).
+Definition flat_graph (st : stack) : graph := map snd (flat st).
+
+(** mutable.rs:318 maybe_squash_with_ancestors: walk the parent files, absorbing each one
+    unless it has more than twice the commits collected so far. On sizes (newest first): *)
+Fixpoint squash_sizes (num_new : nat) (files : list nat) : list nat :=
+  match files with
+  | [] => [num_new]
+  | f :: rest => if (2 * num_new <? f)%nat then num_new :: files else squash_sizes (num_new + f) rest
+  end.
+(** on segments: the absorbed files are re-added oldest first, then the mutable segment
+    (add_commits_from); positions do not change *)
+Fixpoint squash_segs (top : segment) (files : list segment) : stack :=
+  match files with
+  | [] => [top]
+  | f :: rest => if (2 * length top <? length f)%nat then top :: files else squash_segs (f ++ top) rest
+  end.
+(** store.rs:457 save_mutable_index: squash, then save; an empty mutable segment on top of a
+    parent file is dropped (mutable.rs:349) *)
+Definition saved_levels (num_new : nat) (files : list nat) : list nat :=
+  match squash_sizes num_new files with
+  | O :: (_ :: _) as rest => rest
+  | l => l
+  end.
+
 (** ** graph specification used by the checker (meaning proved in Base/DagI.v) *)
 Definition all_pos_desc (g : graph) : list nat := rev (seq 0 (length g)).
 Definition common_set (g : graph) (s1 s2 : list nat) : list nat :=
@@ -167,8 +246,12 @@ Record snap := mk_snap {
   s_graph : graph;             (* parents by position, positions from the index's own order *)
   s_queries : list query;
 }.
+(** one committed transaction: segment sizes (oldest first, as IndexStats lists them) before,
+    number of commits the transaction added, sizes after *)
+Definition level_obs := (list nat * nat * list nat)%type.
 Record case := mk_case {
   c_snaps : list snap;         (* the same repo observed at several points *)
+  c_levels : list level_obs;   (* impl: IndexStats::commit_levels around plain transactions *)
   c_panicked : bool;
 }.
 
@@ -201,6 +284,21 @@ Definition snap_corr (s : snap) : bool := forallb (query_corr (s_graph s)) (s_qu
 Definition snap_ok (s : snap) : bool :=
   wfb (s_graph s) && forallb (query_ok (s_graph s)) (s_queries s).
 
-Definition okb (c : case) : bool := negb (c_panicked c) && forallb snap_ok (c_snaps c).
+Definition level_corr (o : level_obs) : bool :=
+  let '(before, added, after) := o in
+  lnat_eqb (rev (saved_levels added (rev before))) after.
+(** what the squash rule guarantees: no commit is lost, and the newest segment that was
+    written has fewer than half the commits of the segment below it *)
+Definition level_ok (o : level_obs) : bool :=
+  let '(before, added, after) := o in
+  (list_sum after =? list_sum before + added)%nat &&
+  match rev after with
+  | x :: y :: _ => (2 * x <? y)%nat || (added =? 0)%nat
+  | _ => true
+  end.
+
+Definition okb (c : case) : bool :=
+  negb (c_panicked c) && forallb snap_ok (c_snaps c) && forallb level_ok (c_levels c).
 Definition check_case (c : case) : N :=
-  verdict (forallb snap_corr (c_snaps c) && negb (c_panicked c)) (okb c) false 1.
+  verdict (forallb snap_corr (c_snaps c) && forallb level_corr (c_levels c) && negb (c_panicked c))
+          (okb c) false 1.
